@@ -3,18 +3,19 @@
 usage: seeded_matrix.py [PID ...]   (only for claimed checks)"""
 import os, sys, subprocess, json, glob, re
 VERIF = os.path.dirname(os.path.dirname(os.path.abspath(__file__)))
+REPO = os.environ.get('VERIF_REPO', '/repo')      # a scratch copy while other runs read /repo
 sel = [a.upper() for a in sys.argv[1:]]
 man = json.load(open(os.path.join(VERIF, 'MANIFEST.json')))
 claimed = {c['property_id'] for c in man['checks']}
 rows = []
 for d in sorted(glob.glob(os.path.join(VERIF, 'seeded', 'C*_*'))):
     name = os.path.basename(d); pid = name.split('_')[0]
-    if sel and pid not in sel: continue
+    if sel and pid not in sel and name.upper() not in sel: continue
     if pid not in claimed and not os.path.exists(os.path.join(VERIF, 'vf/checks/%s.py' % pid.lower())): continue
     meta = json.load(open(os.path.join(d, 'meta.json')))
     extra = meta.get('also_check', [])
-    assert subprocess.run(['git', '-C', '/repo', 'status', '--porcelain'], capture_output=True, text=True).stdout.strip() == '', 'repo dirty'
-    r = subprocess.run(['git', '-C', '/repo', 'apply', os.path.join(d, 'patch.diff')])
+    assert subprocess.run(['git', '-C', REPO, 'status', '--porcelain'], capture_output=True, text=True).stdout.strip() == '', 'repo dirty'
+    r = subprocess.run(['git', '-C', REPO, 'apply', os.path.join(d, 'patch.diff')])
     if r.returncode: rows.append((name, 'APPLY-FAILED', '')); continue
     try:
         res = []
@@ -23,6 +24,6 @@ for d in sorted(glob.glob(os.path.join(VERIF, 'seeded', 'C*_*'))):
             v = len(re.findall(r'^VIOLATION', pr.stdout, re.M))
             res.append('%s:rc=%d,viol=%d' % (p, pr.returncode, v))
     finally:
-        subprocess.run(['git', '-C', '/repo', 'checkout', '--', '.'])
+        subprocess.run(['git', '-C', REPO, 'checkout', '--', '.'])
     rows.append((name, ' '.join(res), meta.get('summary', '')[:90]))
     print(rows[-1], flush=True)
